@@ -121,11 +121,12 @@ static bool hexok(const std::string& h)
 static bool argsok(const Toks& t)
 {
 	static const char* all[] = {"new", "newc", "assign", "append", "last", "contains", "starts", "ends", "cmp", "concat",
-		"rconcat", "split", "splitjoin", "join", "replace", "atoi", "atol", "splitdic", 0};
+		"rconcat", "split", "splitjoin", "join", "replace", "atoi", "atol", "splitdic", "newarr", "newbytes", "todouble", "matof", 0};
 	const std::string& op = t[0];
 	for (int k = 0; all[k]; k++)
 		if (op == all[k]) { for (size_t i = 1; i < t.size(); i++) if (!hexok(t[i])) return false; return true; }
 	if (op == "indexof") return t.size() < 2 || hexok(t[1]);
+	if (op == "dtoa" || op == "ftoa") return t.size() == 3 && hexok(t[1]) && hexok(t[2]);
 	if (op == "fmt" || op == "fmtf") {
 		size_t k = op == "fmt" ? 2 : 1;
 		if (t.size() > k && !hexok(t[k])) return false;
@@ -133,6 +134,9 @@ static bool argsok(const Toks& t)
 	}
 	return true;
 }
+
+static std::string bits64(double d) { unsigned long long u; memcpy(&u, &d, 8); char b[20]; snprintf(b, sizeof b, "%016llx", u); return b; }
+static std::string bits32(float f) { unsigned u; memcpy(&u, &f, 4); char b[12]; snprintf(b, sizeof b, "%08x", u); return b; }
 
 static std::string step(const Toks& t)
 {
@@ -143,6 +147,14 @@ static std::string step(const Toks& t)
 	// ---- construction
 	if (op == "new" && na == 1) { Exact d(unhex(t[1])); delete cur; cur = new String(d.p, (int)d.n); return show(*cur); }
 	if (op == "newc" && na == 1) { Exact d(unhex(t[1])); delete cur; cur = new String((const char*)d.p); return show(*cur); }
+	if (op == "newarr" && na == 1) {
+		std::string d = unhex(t[1]); Array<char> a((int)d.size()); if (d.size()) memcpy(a.data(), d.data(), d.size());
+		delete cur; cur = new String(a); return show(*cur);
+	}
+	if (op == "newbytes" && na == 1) {
+		std::string d = unhex(t[1]); ByteArray a((int)d.size()); if (d.size()) memcpy(a.data(), d.data(), d.size());
+		delete cur; cur = new String(a); return show(*cur);
+	}
 	if (op == "get" && na == 0) return show(c);
 	if (op == "copy" && na == 0) { String* k = new String(c); std::string r = show(*k); delete k; return r; }
 	// ---- in-place mutations
@@ -199,7 +211,7 @@ static std::string step(const Toks& t)
 	if (op == "substring" && na == 2) { int i, n; piece(c.length(), num(t[1]), num(t[2]), i, n); return show(c.substring(i, i + n)); }
 	if (op == "substr" && na == 2) {
 		long long i = num(t[1]), n = num(t[2]);
-		if (n < 0 || i < -(long long)c.length()) return "err range";
+		if (n < 0 || i < -(long long)c.length() || n > 2147483647LL || i > 2147483647LL) return "err range";
 		return show(c.substr((int)i, (int)n));
 	}
 	if (op == "trimmed" && na == 0) return show(c.trimmed());
@@ -232,6 +244,21 @@ static std::string step(const Toks& t)
 	if (op == "bool" && na == 1) { String* s = new String(t[1] == "1"); std::string r = show(*s); delete s; return r; }
 	if (op == "ofchar" && na == 1) { String* s = new String((char)num(t[1])); std::string r = show(*s); delete s; return r; }
 	if (op == "repeat" && na == 2) return show(String::repeat((char)num(t[1]), (int)num(t[2])));
+	// ---- floating point (the third token of dtoa/ftoa is the text the model side is given; unused here)
+	if (op == "dtoa" && na == 2) {
+		unsigned long long u = strtoull(t[1].c_str(), 0, 16); double d; memcpy(&d, &u, 8);
+		String* s = new String(d);
+		std::string r = show(*s) + " D=" + both(bits64((double)*s), bits64(s->toDouble())) + " M=" + bits64(myatof(**s));
+		delete s; return r;
+	}
+	if (op == "ftoa" && na == 2) {
+		unsigned u = (unsigned)strtoul(t[1].c_str(), 0, 16); float f; memcpy(&f, &u, 4);
+		String* s = new String(f);
+		std::string r = show(*s) + " F=" + bits32((float)*s);
+		delete s; return r;
+	}
+	if (op == "todouble" && na == 1) { Exact d(unhex(t[1])); String s = S(d); return both(bits64((double)s), bits64(s.toDouble())); }
+	if (op == "matof" && na == 1) { Exact d(unhex(t[1])); String s = S(d); return bits64(myatof(d.p)) + " " + bits32((float)s); }
 	// ---- printf-style constructors
 	if ((op == "fmt" && na >= 2) || (op == "fmtf" && na >= 1)) {
 		size_t k = op == "fmt" ? 2 : 1;
